@@ -360,6 +360,7 @@ impl Sys {
         // (a transport whose write half has failed may of course have taken only part of a packet)
         if self.w.partial_out() != 0
             && !self.w.wire.borrow().write_err
+            && !self.w.wire.borrow().write_zero
             && !self.w.hard_blocked()
             && self.m.blocked.is_none()
             && !self.torn_write
